@@ -147,6 +147,10 @@ def replay_history(args):
             i += 2
             step += 1
             obs = end["obs"]
+            if opr["kind"] == "refuse" and opr["why"] == "scheme" and nrows == 0:
+                # a file without row groups has no scheme yet: the library may accept either (minimal reading)
+                out["ops"].append({"step": step, "op": opr, "viol": [], "warn": [], "na": True})
+                break
             before = st
             rec = Recorder(root=d)
             info = {"step": step, "op": opr, "viol": [], "warn": [], "abs_pre": None}
@@ -175,14 +179,30 @@ def replay_history(args):
                             del W.open
                         except AttributeError:
                             pass
+                elif opr["kind"] == "refuse":
+                    dfa = frame(pd, nrows, ROWS_PER_RG)
+                    if opr["why"] == "columns":
+                        variant = (hid + step) % 3
+                        if variant == 0:
+                            dfa["extra"] = 1
+                        elif variant == 1:
+                            dfa = dfa.drop(columns=["c2"])
+                        else:
+                            dfa = dfa.rename(columns={"c3": "c9"})
+                        fp.write(path, dfa, append=True, open_with=rec.open_with)
+                    else:
+                        fp.write(path, dfa, append=True, file_scheme="hive", open_with=rec.open_with)
                 else:
                     k = opr["k"]
                     bad = None
-                    if opr["failg"]:
+                    comp = None
+                    if opr["failg"] and opr.get("why", "encode") == "encode":
                         bad = ((opr["failg"] - 1) * ROWS_PER_RG + 1, opr["failc"])
+                    elif opr["failg"]:
+                        comp = {"c%d" % c: ("NOSUCHCODEC" if c == opr["failc"] else None) for c in range(1, NCOLS + 1)}
                     dfa = frame(pd, nrows, k * ROWS_PER_RG, bad)
                     offs = [j * ROWS_PER_RG for j in range(max(k, 1))]
-                    fp.write(path, dfa, append=True, row_group_offsets=offs, open_with=rec.open_with)
+                    fp.write(path, dfa, append=True, row_group_offsets=offs, open_with=rec.open_with, compression=comp)
             except BaseException as e:  # noqa
                 raised = e
             out["evals"] += 1
@@ -200,15 +220,17 @@ def replay_history(args):
             sig = {"op": opr["kind"], "meta": bool(init["meta"])}
             if opr["kind"] == "kv":
                 sig["footer_delta"] = fdelta
+            elif opr["kind"] == "refuse":
+                sig["why"] = opr["why"]
             else:
-                sig.update(k=opr["k"], failc=opr["failc"], failg=opr["failg"])
+                sig.update(k=opr["k"], failc=opr["failc"], failg=opr["failg"], why=opr.get("why", "none"))
             if want_raise and raised is None:
                 info["viol"].append(dict(sig, what="no exception for an operation that must be refused"))
             if not want_raise and raised is not None:
                 info["viol"].append(dict(sig, what="unexpected exception", exc=type(raised).__name__))
                 want_rows, want_kv = None, None
             if raised is None and not want_raise:
-                if opr["kind"] == "app":
+                if opr["kind"] == "app" and opr["k"] > 0:
                     exp_rows = exp_rows + expected_rows(nrows + opr["k"] * ROWS_PER_RG)[nrows:]
                     nrows += opr["k"] * ROWS_PER_RG
                 conc = new_conc
@@ -243,7 +265,7 @@ def replay_history(args):
                     info["drift"] = "model file-length delta %d, real %d" % (md, rd)
             prev_model_flen = obs["flen"]
             # ---------------- trace for TLC ----------------
-            if tv0["strict"]:
+            if tv0["strict"] and opr["kind"] != "refuse":
                 tr = abstract_trace(opr, rec.events, tv0, tv, init, before, raised, step)
                 if tr is not None:
                     tr["hid"], tr["step"] = hid, step
@@ -307,7 +329,8 @@ def abstract_trace(opr, events, tv0, tv, init, before, raised, step):
         if closes:
             evs.append({"ev": "kv_close", "size": closes[-1]["size"]})
     else:
-        evs.append({"ev": "app_begin", "k": opr["k"], "failg": opr["failg"], "failc": opr["failc"]})
+        evs.append({"ev": "app_begin", "k": opr["k"], "failg": opr["failg"], "failc": opr["failc"],
+                    "why": opr.get("why", "none")})
         seeks = [e for e in calls if e["ev"] == "seek"]
         writes = [e for e in calls if e["ev"] == "write"]
         truncs = [e for e in calls if e["ev"] == "truncate"]
